@@ -756,7 +756,7 @@ func (tx *Tx) PrefixScan(bucket string, prefix []byte, offsetNum int, limitNum i
 	}
 
 	if idx, ok := tx.db.BPTreeIdx[bucket]; ok {
-		records, voff, err := idx.PrefixScan(prefix, offsetNum, limitNum)
+		records, voff, err := idx.prefixScan(prefix, offsetNum, limitNum, isDeadRecord)
 		if err != nil {
 			off = voff
 			return nil, off, ErrPrefixScan
@@ -792,7 +792,7 @@ func (tx *Tx) PrefixSearchScan(bucket string, prefix []byte, reg string, offsetN
 	}
 
 	if idx, ok := tx.db.BPTreeIdx[bucket]; ok {
-		records, voff, err := idx.PrefixSearchScan(prefix, reg, offsetNum, limitNum)
+		records, voff, err := idx.prefixSearchScan(prefix, reg, offsetNum, limitNum, isDeadRecord)
 		if err != nil {
 			off = voff
 			return nil, off, ErrPrefixSearchScan
@@ -813,6 +813,13 @@ func (tx *Tx) PrefixSearchScan(bucket string, prefix []byte, reg string, offsetN
 	}
 
 	return
+}
+
+// isDeadRecord reports whether the record is a tombstone or has expired. Such
+// records stay in the RAM index but are not part of any scan result, so they
+// must not consume the offset or the limit of a paginated scan either.
+func isDeadRecord(r *Record) bool {
+	return r.H.meta.Flag == DataDeleteFlag || r.IsExpired()
 }
 
 // Delete removes a key from the bucket at given bucket and key.
